@@ -73,8 +73,6 @@ func zzC10_gate() {
 					vAssert(rc == diam.Success, "acceptable CER is answered with success")
 				}
 				handshaken = true
-			} else {
-				vAssert(len(c.written) == wrote, "a retransmitted CER after the handshake is ignored")
 			}
 		case 1: // CER without a common application
 			st.ServeDIAM(c, zzCER(7777, 0, false)) // an id the dictionary does not define (the id space is C11's subject)
